@@ -228,6 +228,15 @@ func runC12(seed int64, tier string, sc *Script) map[string]any {
 		dirName := []string{"data", "..data", "data", "..2024_01_01.cfg", "..."}[ti%5]
 		oneName := []string{"one.bin", "one.bin", "..one.bin", ".one"}[ti%4]
 		sc.Count("top-level-names:" + dirName + "," + oneName)
+		// the name a directory is added (and restored) under need not be its name on disk
+		restName, addPath := dirName, ""
+		switch ti % 4 {
+		case 1:
+			restName, addPath = "release", filepath.Join(wd1, dirName)
+		case 3:
+			restName, addPath = "bundles/payload", filepath.Join(wd1, dirName)
+		}
+		sc.Count(fmt.Sprintf("added-under-its-own-name:%v", addPath == ""))
 		tree := genTree(rng, filepath.Join(wd1, dirName), tier == "thorough")
 		single := []byte(fmt.Sprintf("single-file-%d", ti))
 		if ti%2 == 1 {
@@ -250,7 +259,7 @@ func runC12(seed int64, tier string, sc *Script) map[string]any {
 			panic(err)
 		}
 		fs1.TarReproducible = reproducible
-		dDir, err := fs1.Add(ctx, dirName, "", "")
+		dDir, err := fs1.Add(ctx, restName, "", addPath)
 		if err != nil {
 			panic(err)
 		}
@@ -332,7 +341,7 @@ func runC12(seed int64, tier string, sc *Script) map[string]any {
 		if cerr != nil {
 			res = "copy-failed:" + strings.ReplaceAll(cerr.Error(), " ", "_")
 		} else {
-			got, err := readTree(filepath.Join(wd2, dirName))
+			got, err := readTree(filepath.Join(wd2, restName))
 			if err != nil {
 				res = "unreadable:" + strings.ReplaceAll(err.Error(), " ", "_")
 			} else {
@@ -388,7 +397,7 @@ func runC12(seed int64, tier string, sc *Script) map[string]any {
 		v = "blob"
 		if perr != nil {
 			v = "push-failed"
-		} else if b, err := os.ReadFile(filepath.Join(base, "wd4", dirName)); err != nil || !bytes.Equal(b, gzBytes) {
+		} else if b, err := os.ReadFile(filepath.Join(base, "wd4", restName)); err != nil || !bytes.Equal(b, gzBytes) {
 			v = "not-the-gzip"
 		}
 		sc.Op(v, "tr skipunpack")
@@ -405,7 +414,7 @@ func runC12(seed int64, tier string, sc *Script) map[string]any {
 			v := "same"
 			if err := oras.CopyGraph(ctx, fs1, fs6, root, oras.DefaultCopyGraphOptions); err != nil {
 				v = "copy-failed:" + strings.ReplaceAll(err.Error(), " ", "_")
-			} else if got, err := readTree(filepath.Join(wd6, dirName)); err != nil {
+			} else if got, err := readTree(filepath.Join(wd6, restName)); err != nil {
 				v = "unreadable:" + strings.ReplaceAll(err.Error(), " ", "_")
 			} else if v = diffTrees(expectTree(tree, umask, preserve), got); v == "same" {
 				if b, err := os.ReadFile(filepath.Join(wd6, oneName)); err != nil || !bytes.Equal(b, single) {
@@ -423,7 +432,7 @@ func runC12(seed int64, tier string, sc *Script) map[string]any {
 			exec := func() ocispec.Descriptor {
 				f, _ := file.New(wd5)
 				f.TarReproducible = true
-				d, err := f.Add(ctx, dirName, "", filepath.Join(wd1, dirName))
+				d, err := f.Add(ctx, restName, "", filepath.Join(wd1, dirName))
 				if err != nil {
 					panic(err)
 				}
